@@ -100,6 +100,18 @@ claim("C16", "other",
       "decision-table extraction from MIR + constructor/writer inventories + call-graph reachability",
       "DESIGN.md §3 C16")
 
+claim("C11", "other",
+      "Evidence rules decided on extracted tables: try_set_heartbeat over all orderings of (stored, new); the only path into "
+      "the failure detector is guarded by try_set_heartbeat == true and 'not own id', with (id, heartbeat) from one digest "
+      "entry and single callers all along the chain; sample admission table of the sampling window (first report sets only "
+      "last_heartbeat; append iff previous report and interval <= max_interval; phi None while empty); dead branch always "
+      "looks up and resets the window, reset clears intervals and keeps last_heartbeat; catch-up reaches no heartbeat sink.",
+      "The accuracy clause (steady heartbeats within [a,b] never flagged when threshold >= b/min(a, initial)) is a real-"
+      "arithmetic lemma over the formula shape checked under C10/R10.2; timing of evaluations and float rounding are not "
+      "analysed.",
+      "decision-table extraction from MIR + ordering enumeration + caller inventories",
+      "DESIGN.md §3 C11")
+
 ALL = ["C%02d" % i for i in range(1, 21)]
 PENDING_REASON = "check under construction in this session (rules designed in DESIGN.md §3, not yet armed)"
 
